@@ -515,8 +515,14 @@ class Fetcher:
                         # cancellation
                         if not task.done():
                             task.cancel()
-                        with contextlib.suppress(asyncio.CancelledError):
-                            await task
+                    if self._pending_tasks:
+                        # Not ``await task``: a cancellation of this routine
+                        # (``close()``) arriving here would go to the task
+                        # awaited, or be suppressed with the task's own
+                        await asyncio.wait(self._pending_tasks)
+                        for task in self._pending_tasks:
+                            if not task.cancelled():
+                                task.result()
                     self._pending_tasks.clear()
                     self._records.clear()
 
